@@ -32,10 +32,10 @@ QUICK_ARCHS = ["zen1", "zen2", "spr", "hsw", "tx2", "n1", "v2", "a64fx"]
 def floors(tier):
     if tier == "quick":
         return {"evaluations": 700, "distinct_nontrivial": 150, "cfg:uniform": 700, "cfg:once": 700, "cfg:twice": 700,
-                "kind:synth": 300, "kind:shipped": 100, "kind:cli": 20, "kind:clisynth": 40, "dict_checked": 100, "instr_checked": 10000, "alt_forms_seen": 20,
+                "kind:synth": 300, "kind:shipped": 100, "kind:cli": 20, "kind:clisynth": 40, "dict_checked": 100, "composed_memory_instr_seen": 300, "instr_checked": 10000, "alt_forms_seen": 20,
                 "zero_tp_lines_seen": 20, "multichar_port_models": 10, "totals_checked": 2000}
     return {"evaluations": 9000, "distinct_nontrivial": 2000, "cfg:uniform": 9000, "cfg:once": 9000, "cfg:twice": 9000,
-            "kind:synth": 5000, "kind:shipped": 1500, "kind:cli": 150, "kind:clisynth": 800, "dict_checked": 1500, "instr_checked": 100000, "alt_forms_seen": 200,
+            "kind:synth": 5000, "kind:shipped": 1500, "kind:cli": 150, "kind:clisynth": 800, "dict_checked": 1500, "composed_memory_instr_seen": 4000, "instr_checked": 100000, "alt_forms_seen": 200,
             "zero_tp_lines_seen": 200, "multichar_port_models": 100, "totals_checked": 20000}
 
 
@@ -274,6 +274,8 @@ def expected_from_observation(mm, evs, R, case):
                 R.violation("uops/not-the-entry's", "line %r: port_uops %r is not the port data of any %s entry" % (s["line"], alts, name), case)
                 out.append(None)
                 continue
+        if composed:
+            R.count("composed_memory_instr_seen")
         out.append(alts)
     return out
 
